@@ -74,6 +74,20 @@ prop('C08',
          'callers in bin/weighted_model_count.rs and src/ffi/bdd.rs',
      ])
 
+prop('C06',
+     units=['dnnf'],
+     assumptions=[A_VERUS, A_EXTRACT, A_PTREQ, A_TERM,
+                  'A-scratch: the per-node scratch memo read by cond_helper is modelled as empty (nothing in the crate stores a BddPtr there; its set_scratch line is commented out)',
+                  'A-unsafe: the unique table of StandardDecisionNNFBuilder returns a reference to a node equal to its argument (proved for the real table in unit `table`)'],
+     replay='dnnf',
+     explanation='last sentence of the property: DecisionNNFBuilder::cond_helper / TopDownBuilder::condition carry  forall env. ptr_sem(r, env) == ptr_sem(bdd, upd(env, lbl, value))  '
+                 'for regular AND complemented pointers of any diagram in which no path decides a variable twice (no ordering assumption); var and the standard store get_or_insert are under contract',
+     not_covered=[
+         'exactness of topdown_h / compile_cnf_topdown (false iff unsatisfiable, models = CNF models): conditional on SATSolver (C09, not applicable) and on the 128-bit residual hash identifying residual formulas',
+         'conjoin_implied: iterates an `impl Iterator<Item = Literal>` (no for-loop support for opaque iterators in Verus)',
+         'SemanticDecisionNNFBuilder (semantic-hash node store): C11',
+     ])
+
 
 def proved_includes(root):
     """set of inc/*.rs files that some unit template includes non-assumed"""
